@@ -21,6 +21,9 @@ package main
 //	        leak   = payloads handed to the writer (failed attempts included) that contain the payload
 //	        unauth = data payloads handed to the writer that do not authenticate under the ingress's key
 //	hs close <stream>                                                                    -> ok
+//	hs oversize <stream> <payload>       a datagram at / beyond the size the handler relays  -> sent <leak> <unauth>
+//	(leak counts look at EVERYTHING handed to the writer for the stream: data payloads and the content of every
+//	 control frame — open-ack/err messages, closes —, for the payload, its first 16 bytes, and their hex forms)
 //	hs open … hibit                      as `fresh`, but the ingress public key goes out with bit 255 set (a
 //	                                     non-canonical encoding X25519 accepts); the ingress salts with the bytes it sent
 //	hs pingclose <stream> <payload> fail|stall <k>
@@ -75,6 +78,7 @@ type c04hWriter struct {
 	nData   int
 	data    map[uint64][][]byte // per stream: every payload handed to a data write (failed attempts too)
 	acks    []c04hAck
+	ctrl    map[uint64][][]byte // per stream: the content of every NON-data frame handed to the writer (open-ack/err, close, ...)
 	changed chan struct{}
 	// one-shot trap on a stream's data writes (pingclose)
 	armStream uint64
@@ -127,8 +131,19 @@ func (w *c04hWriter) WriteStreamOpenAck(peerID identity.AgentID, streamID uint64
 	w.mu.Unlock()
 	return nil
 }
+// control records everything a non-data frame carries (unsealed, readable at every transit).
+func (w *c04hWriter) control(streamID uint64, parts ...[]byte) {
+	if w.ctrl == nil {
+		w.ctrl = map[uint64][][]byte{}
+	}
+	for _, p := range parts {
+		w.ctrl[streamID] = append(w.ctrl[streamID], append([]byte{}, p...))
+	}
+}
+
 func (w *c04hWriter) WriteStreamOpenErr(peerID identity.AgentID, streamID uint64, requestID uint64, errorCode uint16, message string) error {
 	w.mu.Lock()
+	w.control(streamID, []byte(message))
 	w.acks = append(w.acks, c04hAck{stream: streamID, req: requestID})
 	w.note()
 	w.mu.Unlock()
@@ -143,6 +158,7 @@ func (w *c04hWriter) WriteUDPClose(peerID identity.AgentID, streamID uint64, rea
 }
 func (w *c04hWriter) WriteUDPOpenAck(peerID identity.AgentID, streamID uint64, ack *protocol.UDPOpenAck) error {
 	w.mu.Lock()
+	w.control(streamID, ack.Encode())
 	w.acks = append(w.acks, c04hAck{streamID, ack.RequestID, ack.EphemeralPubKey, true})
 	w.note()
 	w.mu.Unlock()
@@ -150,6 +166,7 @@ func (w *c04hWriter) WriteUDPOpenAck(peerID identity.AgentID, streamID uint64, a
 }
 func (w *c04hWriter) WriteUDPOpenErr(peerID identity.AgentID, streamID uint64, e *protocol.UDPOpenErr) error {
 	w.mu.Lock()
+	w.control(streamID, []byte(e.Message), e.Encode())
 	w.acks = append(w.acks, c04hAck{stream: streamID, req: e.RequestID})
 	w.note()
 	w.mu.Unlock()
@@ -168,6 +185,11 @@ func (k *c04hFrameSink) Write(p []byte) (int, error) {
 	f, err := protocol.NewFrameReader(bytes.NewReader(p)).Read()
 	if err != nil {
 		return len(p), nil
+	}
+	if f.Type != protocol.FrameStreamData {
+		k.w.mu.Lock()
+		k.w.control(f.StreamID, f.Payload)
+		k.w.mu.Unlock()
 	}
 	switch f.Type {
 	case protocol.FrameStreamData:
@@ -542,6 +564,76 @@ func (in *c04hIngress) authentic(p []byte) bool {
 	return false
 }
 
+// c04hLeaks: does a byte string handed to the writer show the application payload — whole, its first 16
+// bytes (truncated quotes), or either of them in hex?
+func c04hLeaks(p, marker []byte) bool {
+	if len(marker) < 8 {
+		return false
+	}
+	cands := [][]byte{marker, []byte(hex.EncodeToString(marker))}
+	if len(marker) > 16 {
+		cands = append(cands, marker[:16], []byte(hex.EncodeToString(marker[:16])))
+	}
+	for _, c := range cands {
+		if bytes.Contains(p, c) {
+			return true
+		}
+	}
+	return false
+}
+
+// ctrlLeaks counts the control-frame contents of a stream, from index c0 on, that show the payload.
+func (w *c04hWriter) ctrlLeaks(stream uint64, c0 int, marker []byte) int {
+	n := 0
+	if c0 > len(w.ctrl[stream]) {
+		c0 = len(w.ctrl[stream])
+	}
+	for _, p := range w.ctrl[stream][c0:] {
+		if c04hLeaks(p, marker) {
+			n++
+		}
+	}
+	return n
+}
+
+// oversize: one datagram / chunk larger than the handler relays; nothing it writes in answer — data or
+// control — may show the payload.  -> sent <leak> <unauth>
+func (s *c04hState) oversize(stream uint64, payload []byte) string {
+	in := s.ing[stream]
+	if in == nil || in.key == nil || in.closed {
+		return "sent 0 0"
+	}
+	w := s.w
+	w.mu.Lock()
+	n0, c0 := len(w.data[stream]), len(w.ctrl[stream])
+	w.mu.Unlock()
+	s.send(stream, payload, false)
+	last, quiet := -1, 0
+	for i := 0; i < 100 && quiet < 3; i++ {
+		time.Sleep(150 * time.Millisecond)
+		w.mu.Lock()
+		n := len(w.data[stream]) + len(w.ctrl[stream])
+		w.mu.Unlock()
+		if n == last {
+			quiet++
+		} else {
+			quiet, last = 0, n
+		}
+	}
+	w.mu.Lock()
+	defer w.mu.Unlock()
+	leak, unauth := w.ctrlLeaks(stream, c0, payload), 0
+	for _, p := range w.data[stream][n0:] {
+		if c04hLeaks(p, payload) {
+			leak++
+		}
+		if len(p) > 0 && !in.authentic(p) {
+			unauth++
+		}
+	}
+	return fmt.Sprintf("sent %d %d", leak, unauth)
+}
+
 // pingclose: see the header comment.
 func (s *c04hState) pingclose(stream uint64, payload []byte, mode string, k int) string {
 	in := s.ing[stream]
@@ -550,7 +642,7 @@ func (s *c04hState) pingclose(stream uint64, payload []byte, mode string, k int)
 	}
 	w := s.w
 	w.mu.Lock()
-	n0 := len(w.data[stream])
+	n0, c0 := len(w.data[stream]), len(w.ctrl[stream])
 	w.armStream, w.armLeft, w.armMode = stream, k, mode
 	w.reached, w.release = make(chan struct{}), make(chan struct{})
 	reached, release := w.reached, w.release
@@ -618,9 +710,9 @@ func (s *c04hState) pingclose(stream uint64, payload []byte, mode string, k int)
 	w.mu.Lock()
 	defer w.mu.Unlock()
 	var zero [32]byte
-	leak, unauth, zk := 0, 0, 0
+	leak, unauth, zk := w.ctrlLeaks(stream, c0, marker), 0, 0
 	for _, p := range w.data[stream][n0:] {
-		if len(marker) >= 8 && bytes.Contains(p, marker) {
+		if c04hLeaks(p, marker) {
 			leak++
 		}
 		if len(p) == 0 {
@@ -639,7 +731,7 @@ func (s *c04hState) pingclose(stream uint64, payload []byte, mode string, k int)
 func (s *c04hState) ping(stream uint64, payload []byte) string {
 	in := s.ing[stream]
 	s.w.mu.Lock()
-	n0 := len(s.w.data[stream])
+	n0, c0 := len(s.w.data[stream]), len(s.w.ctrl[stream])
 	faulty := s.w.failK > 0
 	s.w.mu.Unlock()
 	marker, sent, resend := s.send(stream, payload, true)
@@ -704,9 +796,9 @@ func (s *c04hState) ping(stream uint64, payload []byte) string {
 	}
 	s.w.mu.Lock()
 	defer s.w.mu.Unlock()
-	leak, unauth := 0, 0
+	leak, unauth := s.w.ctrlLeaks(stream, c0, marker), 0
 	for _, p := range s.w.data[stream][n0:] {
-		if len(marker) >= 8 && bytes.Contains(p, marker) {
+		if c04hLeaks(p, marker) {
 			leak++
 		}
 		if len(p) > 0 && !authentic(p) {
@@ -824,6 +916,8 @@ func c04hRun(f []string) string {
 		return "ok"
 	case c04hCur == nil:
 		return "bad-op"
+	case f[1] == "oversize" && len(f) == 4:
+		return c04hCur.oversize(u(f[2]), unhexTok(f[3]))
 	case f[1] == "pingclose" && len(f) == 6 && (f[4] == "fail" || f[4] == "stall"):
 		return c04hCur.pingclose(u(f[2]), unhexTok(f[3]), f[4], int(u(f[5])))
 	case f[1] == "open" && len(f) == 5 && (f[4] == "fresh" || f[4] == "same" || f[4] == "hibit"):
@@ -869,6 +963,16 @@ func c04hGen(w interface{ WriteString(string) (int, error) }, r *rng, nPerKind i
 			if kind == "shell" {
 				// and once more after the command has completed (the harness waits for the old session's teardown)
 				fmt.Fprintf(W, "hs open 1 600 fresh\nhs ping 1 %s\n", pl())
+			}
+		}
+		if kind == "udp" {
+			// always: datagrams at and beyond MaxDatagramSize (1472); the payload starts with printable text so
+			// that a quoted / truncated copy in a control message is recognisable
+			fmt.Fprintf(W, "reset\nhs new udp 0\nhs open 1 900 fresh\n")
+			for _, n := range []int{1472, 1473, 2000, 65507} {
+				head := []byte("VERIF-" + hex.EncodeToString(r.bytes(9)))
+				body := append(head, r.bytes(n-len(head))...)
+				fmt.Fprintf(W, "hs oversize 1 %s\n", hex.EncodeToString(body))
 			}
 		}
 		// always: an initiator key with bit 255 set (valid for X25519, never produced by GenerateEphemeralKeypair)
